@@ -201,6 +201,27 @@ theorem cache_transparent (reqs : List RLocal) (hobs : ∀ l ∈ reqs, l.obs = [
   · rw [List.getElem?_eq_none (by omega)] at hm
     simp at hm
 
+/-! ### per-request state -/
+
+/-- every operation of the request touches only its own context and the caches (nothing is parked on a shared object) -/
+def OwnContextOnly (l : RLocal) : Prop := ∀ op ∈ l.todo, op.isPark = false
+
+/-- NO CROSS TALK.  If handlers write only their own context (cells `setCtx`/`getCtx`, which the measured
+    fact `sharedContextCells = []` makes private) and fill caches, then for every interleaving every
+    finished request observed — response headers, status, body — exactly what it observes alone. -/
+theorem no_cross_talk (reqs : List RLocal) (h : ∀ l ∈ reqs, OwnContextOnly l) (sched : List Nat) (i : Nat)
+    (hfin : ((rrun facts12.rfacts (rinit reqs) sched).loc i).finished = true) :
+    ((rrun facts12.rfacts (rinit reqs) sched).loc i).obs = soloResponse ((rinit reqs).loc i) :=
+  requests_alone facts12.rfacts reqs
+    (fun l hl op hop => good_safe facts12 (by decide) op (h l hl op hop)) sched i hfin
+
+-- non-vacuity: two requests set and read back the same context cell, interleaved
+example :
+    let reqs := [mkReq 5 false [.setCtx 0, .getCtx 0], mkReq 6 false [.setCtx 0, .getCtx 0], mkReq 7 false [.getCtx 0]]
+    ((rrun facts12.rfacts (rinit reqs) [0, 1, 2, 0, 1]).loc 0).obs = [.scr (some 5)] ∧
+    ((rrun facts12.rfacts (rinit reqs) [0, 1, 2, 0, 1]).loc 2).obs = [.scr none] := by
+  decide +kernel
+
 /-! ### each side condition is needed (and each witness is what the harness replays on real threads) -/
 
 private def kPa : Key := ⟨.attr, 0, true⟩
@@ -229,6 +250,15 @@ theorem parked_request_data_crosses_threads :
     let reqs := [mkReq 5 false [.park 0, .unpark 0], mkReq 6 false [.park 0, .unpark 0]]
     ((rrun F (rinit reqs) [0, 1, 0, 1]).loc 0).obs = [.scr (some 6)] ∧
     soloResponse ((rinit reqs).loc 0) = [.scr (some 5)] := by
+  decide
+
+/-- a context cell that lives on a class (e.g. `resp_headers` as a class-level dict) is one object for
+    all requests: a request that never set the cell reads another request's value -/
+theorem shared_context_cell_crosses_threads :
+    let F : RFacts := { order := fun _ => .afterInit, errRead := .underLock, ctxShared := fun _ => true }
+    let reqs := [mkReq 5 false [.getCtx 0], mkReq 6 false [.setCtx 0, .getCtx 0]]
+    ((rrun F (rinit reqs) [1, 0, 1]).loc 0).obs = [.scr (some 6)] ∧
+    soloResponse ((rinit reqs).loc 0) = [.scr none] := by
   decide
 
 end SpyneModel.Props.C12
